@@ -93,8 +93,9 @@ __CPROVER_ensures((RV != 0 || ws->server) ==> g_rand_calls == OLD(g_rand_calls))
 #define PT_ENT_PRE(A, i) ((i) >= (A)->a_nio || ((A)->a_iov[i].iov_len <= (SIZE_MAX >> 4) && __CPROVER_is_fresh((A)->a_iov[i].iov_buf, (A)->a_iov[i].iov_len ? (A)->a_iov[i].iov_len : 1)))
 /* ghost equation for entry i, which starts at offset p of the concatenation */
 #define PT_ENT_EQ(A, i, p) (((i) < (A)->a_nio && g_k >= (p) && g_k - (p) < (A)->a_iov[i].iov_len) ==> g_b == ((const uint8_t *) (A)->a_iov[i].iov_buf)[g_k - (p)])
-#define PT_FRAG(A) (ws->fragsize > 0 && PT_TOTAL(A) > ws->fragsize)
-#define PT_LEN(A) (PT_FRAG(A) ? ws->fragsize : PT_TOTAL(A))
+/* (the total is named by the ghost g_u64, tied to the vector by a precondition equation) */
+#define PT_FRAG(A) (ws->fragsize > 0 && g_u64 > ws->fragsize)
+#define PT_LEN(A) (PT_FRAG(A) ? ws->fragsize : (size_t) g_u64)
 #define PT_FINAL(A) (!PT_FRAG(A) || ws->isstream)
 #define PT_OPC(A) ((A)->a_count == 0 ? (ws->send_text ? WS_OP_TEXT : WS_OP_BIN) : WS_OP_CONT)
 #define FH(i) (frame->head[i])
@@ -103,13 +104,20 @@ static int ws_frame_prep_tx(nni_ws *ws, ws_frame *frame)
 __CPROVER_requires(__CPROVER_is_fresh(ws, sizeof(*ws)) && __CPROVER_is_fresh(frame, sizeof(*frame)) && __CPROVER_is_fresh(frame->aio, sizeof(nni_aio)))
 /* the vector: at most NNI_AIO_MAX_IOV entries (nni_aio_set_iov), every entry points to a buffer (also when its length is 0), total fits size_t */
 __CPROVER_requires(frame->aio->a_nio <= NNI_AIO_MAX_IOV && PT_ENT_PRE(frame->aio, 0) && PT_ENT_PRE(frame->aio, 1) && PT_ENT_PRE(frame->aio, 2) && PT_ENT_PRE(frame->aio, 3) && PT_ENT_PRE(frame->aio, 4) && PT_ENT_PRE(frame->aio, 5) && PT_ENT_PRE(frame->aio, 6) && PT_ENT_PRE(frame->aio, 7))
-__CPROVER_requires(ws->fragsize <= NNI_MAXSZ)
+__CPROVER_requires(ws->fragsize <= NNI_MAXSZ && g_u64 == PT_TOTAL(frame->aio))
 /* stream mode: one frame per submitted write */
 __CPROVER_requires(ws->isstream ==> frame->aio->a_count == 0)
 /* payload buffer of the frame: none yet (new frame) or the block of asize bytes obtained for the previous piece */
 __CPROVER_requires((frame->asize == 0 && frame->adata == NULL && frame->buf == NULL) || (frame->asize > 0 && __CPROVER_is_fresh(frame->adata, frame->asize) && __CPROVER_pointer_in_range_dfcc(frame->adata, frame->buf, frame->adata)))
+#ifdef WSF_TX_CONTENT
+/* (content unit) the vector has at most 2 entries: what ws_str_send builds in message mode (message header, body) */
+__CPROVER_requires(frame->aio->a_nio <= 2)
 /* ghost equation: g_b is byte g_k of the concatenation of the vector entries */
-__CPROVER_requires(g_eq == WSF_EQ_TX ==> (PT_ENT_EQ(frame->aio, 0, 0) && PT_ENT_EQ(frame->aio, 1, PT_P1(frame->aio)) && PT_ENT_EQ(frame->aio, 2, PT_P2(frame->aio)) && PT_ENT_EQ(frame->aio, 3, PT_P3(frame->aio)) && PT_ENT_EQ(frame->aio, 4, PT_P4(frame->aio)) && PT_ENT_EQ(frame->aio, 5, PT_P5(frame->aio)) && PT_ENT_EQ(frame->aio, 6, PT_P6(frame->aio)) && PT_ENT_EQ(frame->aio, 7, PT_P7(frame->aio))))
+__CPROVER_requires(g_eq == WSF_EQ_TX ==> (PT_ENT_EQ(frame->aio, 0, 0) && PT_ENT_EQ(frame->aio, 1, PT_P1(frame->aio))))
+#else
+/* (framing unit, any vector) nothing is claimed about the payload bytes */
+__CPROVER_requires(g_eq != WSF_EQ_TX)
+#endif
 __CPROVER_assigns(__CPROVER_object_whole(frame), WSF_ALLOC_GHOSTS, WSF_RAND_GHOSTS; frame->asize > 0: __CPROVER_object_whole(frame->adata))
 __CPROVER_frees(frame->adata)
 __CPROVER_ensures(RV == 0 || RV == NNG_ENOMEM)
@@ -129,8 +137,10 @@ __CPROVER_ensures((RV != 0 || ws->server) ==> g_rand_calls == OLD(g_rand_calls))
 /* the payload buffer: the old block when it is big enough, else a new block of exactly the payload size (old one released) */
 __CPROVER_ensures((RV == 0 && PT_LEN(OA) > 0 && OLD(frame->asize) >= PT_LEN(OA)) ==> (frame->asize == OLD(frame->asize) && frame->adata == OLD(frame->adata) && frame->buf == frame->adata && g_alloc_ok == OLD(g_alloc_ok) && g_free_calls == OLD(g_free_calls)))
 __CPROVER_ensures((RV == 0 && PT_LEN(OA) > 0 && OLD(frame->asize) < PT_LEN(OA)) ==> (frame->asize == PT_LEN(OA) && __CPROVER_is_fresh(frame->adata, PT_LEN(OA)) && frame->buf == frame->adata && g_alloc_ok == OLD(g_alloc_ok) + 1 && g_free_calls == OLD(g_free_calls) + (OLD(frame->asize) > 0 ? 1 : 0)))
+#ifdef WSF_TX_CONTENT
 /* payload = the first len bytes of the data, XORed with the mask on the client (5.3) */
 __CPROVER_ensures((RV == 0 && g_eq == WSF_EQ_TX && g_k < PT_LEN(OA)) ==> frame->buf[g_k] == (uint8_t) (ws->server ? g_b : (g_b ^ frame->mask[g_k & 3])))
+#endif
 ;
 
 /* ---- fail / close the connection (RFC 6455 7.1.2, 7.1.7) ---------------- */
